@@ -1,6 +1,6 @@
 """C17 instance universe: for every class of tenpy offering HDF5 export, compact deterministic generators.
 
-`build(group, seed, tier)` -> list of (name, object); `exportable_classes()` -> reflection over the package.
+`build(group, seed)` -> list of (name, object); `exportable_classes()` -> reflection over the package.
 The seed only changes the numerical entries of tensors, never which instances exist.
 """
 import importlib
@@ -47,7 +47,7 @@ def _qflats(chinfo):
     return dict(one=[v[0]], two=[v[1], v[2]], rep=[v[0], v[0], v[1]], unsorted=[v[3], v[0], v[3], v[1]], long=[v[0], v[1], v[1], v[2], v[3]])
 
 
-def legs(tier):
+def legs():
     from tenpy.linalg.charges import LegCharge
     out = []
     for cname, ch in chinfos():
@@ -61,10 +61,9 @@ def legs(tier):
                     out.append(('%s:%s:%+d:sortbunch' % (cname, pname, qconj), raw.sort(bunch=True)[1]))
         out.append((cname + ':trivial', LegCharge.from_trivial(3, ch, -1)))
         out.append((cname + ':qind', LegCharge.from_qind(ch, [0, 2, 3, 6], [list(ch.make_valid(np.arange(ch.qnumber) * k)) for k in (2, 0, 1)])))
-        lg = LegCharge.from_qflat(ch, _qflats(ch)['unsorted'])
-        lg.sorted = lg.bunched = False  # flags are only guarantees: may be unset although true
-        out.append((cname + ':flags-unset', lg.sort(bunch=True)[1].copy()))
-        out[-1][1].sorted = out[-1][1].bunched = False
+        lg = LegCharge.from_qflat(ch, _qflats(ch)['unsorted']).sort(bunch=True)[1].copy()
+        lg.sorted = lg.bunched = False  # the flags are only guarantees: may be unset although true
+        out.append((cname + ':flags-unset', lg))
     return out
 
 
@@ -77,7 +76,7 @@ def _some_legs(ch):
     return a, b, c
 
 
-def pipes(tier):
+def pipes():
     from tenpy.linalg.charges import LegPipe
     out = []
     for cname, ch in chinfos():
@@ -92,7 +91,7 @@ def pipes(tier):
     return out
 
 
-def arrays(seed, tier):
+def arrays(seed):
     import tenpy.linalg.np_conserved as npc
     rng = np.random.default_rng(170 + seed)
     out = []
@@ -129,7 +128,7 @@ def arrays(seed, tier):
 
 # ------------------------------------------------------------------ sites
 
-def sites(tier):
+def sites():
     from tenpy.networks import site as S
     import tenpy.linalg.np_conserved as npc
     out = []
@@ -178,12 +177,11 @@ def _sites_for(kind):
                 boson=S.BosonSite(2, 'N'), dipole=S.BosonSite(2, 'dipole'))[kind]
 
 
-def mpss(seed, tier):
+def mpss(seed):
     from tenpy.networks.mps import MPS
     from tenpy.networks.purification_mps import PurificationMPS
     from tenpy.networks.uniform_mps import UniformMPS
     from tenpy.networks.momentum_mps import MomentumMPS
-    from tenpy.networks.site import GroupedSite
     np.random.seed(1700 + seed)  # `from_random_unitary_evolution` draws from the global numpy generator
     out = []
     states = dict(spin=['up', 'down'], spinP=['up', 'down'], spin0=['up', 'down'], fermion=['full', 'empty'], boson=[1, 0], dipole=[1, 0])
@@ -226,7 +224,7 @@ def mpss(seed, tier):
     return out
 
 
-def mpos(seed, tier):
+def mpos():
     from tenpy.networks.mpo import MPO, MPOGraph
     from tenpy.networks.terms import TermList
     from tenpy.models.xxz_chain import XXZChain
@@ -256,7 +254,7 @@ def mpos(seed, tier):
     return out
 
 
-def lattices(tier):
+def lattices():
     from tenpy.models import lattice as L
     from tenpy.models.toric_code import DualSquare
     from tenpy.models.mixed_xk import MixedXKLattice
@@ -308,10 +306,9 @@ MODEL_PARAMS = {  # beyond `dict(L=2, Lx=2, Ly=2)`: what a class needs / a secon
 }
 
 
-def models(seed, tier):
+def models():
     from tenpy.models import lattice as L
     from tenpy.models import model as M
-    from tenpy.networks.terms import TermList
     out = []
     classes = exportable_classes()
     for full, cls in sorted(classes.items()):
@@ -347,7 +344,7 @@ def models(seed, tier):
     return out
 
 
-def others(seed, tier):
+def others():
     from tenpy.linalg.truncation import TruncationError
     from tenpy.networks import terms as T
     from tenpy.tools.hdf5_io import Hdf5Exportable
@@ -395,14 +392,14 @@ def others(seed, tier):
     return out
 
 
-GROUPS = dict(chinfo=lambda seed, tier: chinfos(), leg=lambda seed, tier: legs(tier), pipe=lambda seed, tier: pipes(tier), array=arrays,
-              site=lambda seed, tier: sites(tier), mps=mpss, mpo=mpos, lattice=lambda seed, tier: lattices(tier), model=models, other=others)
+GROUPS = dict(chinfo=chinfos, leg=legs, pipe=pipes, array=arrays, site=sites, mps=mpss, mpo=mpos, lattice=lattices, model=models, other=others)
+SEEDED = ('array', 'mps')  # groups with random tensor entries
 
 
-def build(group, seed, tier):
+def build(group, seed):
     with warnings.catch_warnings():
         warnings.simplefilter('ignore')
-        items = GROUPS[group](seed, tier)
+        items = GROUPS[group](seed) if group in SEEDED else GROUPS[group]()
     names = [n for n, _ in items]
     assert len(set(names)) == len(names), 'duplicate instance names in ' + group
     return items
